@@ -7,6 +7,7 @@ from ..alg import Poly, sym
 from ..astutil import up, walk_local, stores, chain, const, calls, paths
 from ..rules import where, path_actions, pickle_state_agreement, getstate_keys
 from ..loader import AnalysisError
+from ..interp import Interp, Hooks, Arr, Obj, Unk, symarr, num, decide_with, count_atom
 
 EXPLANATION = (
     "(ALG-19) Source.from_ascii, as index arithmetic in normal form: n = int((len-3)/3) equals n when len = 3(n+1); name, x, y come from columns 0,1,2; "
@@ -24,6 +25,23 @@ TECHNIQUE = 'static analysis: slice/stride composition as affine index maps in p
 
 N = sym('n')
 LEN = sym('LEN')
+
+
+class LenHooks(Hooks):
+    """configuration: concrete lengths; a test is decided when its value depends on lengths only"""
+    def __init__(self, consts):
+        self.consts = consts
+
+    def decide(self, interp, test, env, mod):
+        try:
+            v = interp.expr(test, dict(env), mod)
+        except Exception:
+            return None
+        if isinstance(v, Arr) and v.ndim == 0 and not v.poly.is_const():
+            syms, fns = alg.leaf_syms(v.poly)
+            if not syms and fns <= {'len'}:
+                return decide_with(interp, test, env, mod, consts=self.consts)
+        return None
 
 
 class View:
@@ -234,27 +252,41 @@ def run(ctx):
     # ---- CFG-12
     ctx.expect(order.index('valid') < order.index('flux') and order.index('valid') < order.index('error') if all(k in order for k in ('valid', 'flux', 'error')) else False,
                'CFG-12', 'valid assigned before flux and error', where(fa), 'assignment order %s' % order, 'assignment order %s: the length cross-check has nothing to compare with' % order, 'order')
+    # the setters are interpreted on concrete pairs (length offered, length already fixed): they must raise exactly when the two differ,
+    # including when the fixed length is 0; tests are decided on their value (helpers and properties inlined), not on their spelling
+    LV, LW = 'V', 'w'
     for attr in ('valid', 'flux', 'error'):
         setter = ctx.fn(repo.func('source.source', 'Source.%s@setter' % attr))
-        val = setter.params[1]
-        found = False
-        for p in paths(setter.node.body):
-            if p.exit != 'raise':
-                continue
-            for tnode, truth in p.tests():
-                t = up(tnode).replace(' ', '')
-                if truth and ('len(%s)!=%s.n_wav' % (val, setter.params[0])) in t or truth and ('%s.n_wav!=len(%s)' % (setter.params[0], val)) in t:
-                    found = True
-        ctx.expect(found, 'CFG-12', '%s setter rejects a wrong length' % attr, where(setter), 'raises when len(value) != n_wav',
-                   'no raise guarded by len(value) != self.n_wav', 'length-check')
+        bad, unk = [], []
+        for a, b in ((5, 7), (7, 5), (4, 0), (0, 3), (1, 2), (5, 5), (0, 0), (1, 1)):
+            h = LenHooks({count_atom(LV): a, count_atom(LW): b})
+            I = Interp(repo, h)
+            o = Obj(ci, {'_valid': symarr('valid', (LW,), unit=num(1)), '_flux': symarr('flux', (LW,), unit=num(1)), '_error': symarr('err', (LW,), unit=num(1))})
+            if attr == 'valid':
+                o.attrs['_valid'] = None       # n_wav then comes from the fluxes already stored
+            out = I.call(setter, [symarr('val', (LV,), unit=num(1))], selfv=o)
+            raised = isinstance(out, Unk) and 'always raises' in out.why
+            open_guards = [g for g in I.assumed if g[4] == 'raise-guard' and len(g) > 5 and (not isinstance(g[5], Arr) or 'len' in alg.leaf_syms(g[5].poly)[1])]
+            if isinstance(out, Unk) and not raised:
+                unk.append('(%d,%d): %s' % (a, b, out.why))
+            elif not raised and open_guards:
+                unk.append('(%d,%d): guard %s not decided' % (a, b, open_guards[0][2]))
+            elif raised != (a != b):
+                bad.append('a value of length %d is %s when the length already fixed is %d' % (a, 'refused' if raised else 'accepted', b))
+        if unk and not bad:
+            ctx.undecided('CFG-12', '%s setter rejects a wrong length' % attr, where(setter), '; '.join(unk[:3]))
+        else:
+            ctx.expect(not bad, 'CFG-12', '%s setter rejects a wrong length' % attr, where(setter), 'raises exactly when len(value) differs from the length already fixed (8 length pairs, 0 included)',
+                       '; '.join(bad[:3]), 'length-check')
     nwp = ctx.fn(repo.func('source.source', 'Source.n_wav@getter'))
-    first = None
-    for st in nwp.node.body:
-        if isinstance(st, ast.If):
-            first = st
-            break
-    okk = first is not None and up(first.test).replace(' ', '') == 'self.validisnotNone' and any(isinstance(x, ast.Return) and up(x.value) == 'len(self.valid)' for x in first.body)
-    ctx.expect(okk, 'CFG-12', 'n_wav is len(valid) once valid is set', where(nwp), 'n_wav == len(valid) when valid is set', 'n_wav resolves differently', 'n-wav')
+    I = Interp(repo)
+    o = Obj(ci, {'_valid': symarr('valid', (LW,), unit=num(1)), '_flux': symarr('flux', ('x1',), unit=num(1)), '_error': symarr('err', ('x2',), unit=num(1))})
+    got = I.call(nwp, [], selfv=o)
+    if isinstance(got, Arr):
+        ctx.expect(got.poly == alg.count(LW), 'CFG-12', 'n_wav is len(valid) once valid is set', where(nwp), 'n_wav == len(valid) when valid is set',
+                   'n_wav evaluates to %s' % alg.show(got.poly, 80), 'n-wav')
+    else:
+        ctx.undecided('CFG-12', 'n_wav is len(valid) once valid is set', where(nwp), 'value not modelled: %r' % (got,))
     # ---- FLAG-2
     vs = ctx.fn(repo.func('source.source', 'Source.valid@setter'))
     val = vs.params[1]
@@ -315,6 +347,8 @@ def run(ctx):
 
 SO = 'sedfitter/source/source.py'
 MUST_FIRE = [
+    ('length check through a helper that forgets length 0', [(SO, 'if self.n_wav is not None and len(value) != self.n_wav:\n                raise ValueError("flux', 'if self._mismatch(value):\n                raise ValueError("flux'),
+                                                             (SO, '    @property\n    def n_data(self):', '    def _mismatch(self, value):\n        return bool(self.n_wav) and len(value) != self.n_wav\n\n    @property\n    def n_data(self):')]),
     ('strides swapped', [(SO, "        s.flux = flux_and_error[::2]\n        s.error = flux_and_error[1::2]", "        s.flux = flux_and_error[1::2]\n        s.error = flux_and_error[::2]")]),
     ('(len-3)//2', [(SO, "n_wav = np.int32((len(cols) - 3) / 3)", "n_wav = np.int32((len(cols) - 3) / 2)")]),
     ('flag slice off by one', [(SO, "s.valid = np.array(cols[3:3 + n_wav], dtype=int)", "s.valid = np.array(cols[2:2 + n_wav], dtype=int)")]),
@@ -333,6 +367,9 @@ MUST_FIRE = [
     ('n_wav prefers flux', [(SO, "        if self.valid is not None:\n            return len(self.valid)\n        elif self.flux is not None:\n            return len(self.flux)", "        if self.flux is not None:\n            return len(self.flux)\n        elif self.valid is not None:\n            return len(self.valid)")]),
 ]
 MUST_SILENT = [
+    ('length check through a helper', [(SO, 'if self.n_wav is not None and len(value) != self.n_wav:\n                raise ValueError("flux', 'if self._mismatch(value):\n                raise ValueError("flux'),
+                                       (SO, '    @property\n    def n_data(self):', '    def _mismatch(self, value):\n        return self.n_wav is not None and len(value) != self.n_wav\n\n    @property\n    def n_data(self):')]),
+    ('length check spelled the other way round', [(SO, 'if self.n_wav is not None and len(value) != self.n_wav:\n                raise ValueError("error', 'if not (self.n_wav is None or self.n_wav == len(value)):\n                raise ValueError("error')]),
     ('floor division', [(SO, "n_wav = np.int32((len(cols) - 3) / 3)", "n_wav = (len(cols) - 3) // 3")]),
     ('slices via temporaries', [(SO, "s.valid = np.array(cols[3:3 + n_wav], dtype=int)", "first = 3\n        s.valid = np.array(cols[first:first + n_wav], dtype=int)")]),
     ('explicit step', [(SO, "s.flux = flux_and_error[::2]", "s.flux = flux_and_error[0::2]")]),
